@@ -283,8 +283,34 @@ Definition end_loc (fixed : bool) (cs : list chr) : Loc :=
         (wrap32 (fold_right (fun c n => chr_len c + n) 0 cs))
         (wrap32 (nlen cs)).
 
-(** Formatter::push (format.rs:1500-1505): start = end_loc(output before the fragment),
-    end = end_loc(output after it).  On an exported final output text [out] and a glyph-map
+(** The formatter's running end location (src/format.rs `struct Output`, since 6889e96): instead
+    of rescanning the output ([end_loc] above, kept as the specification) the formatter updates
+    line / col / char_pos on every pushed and popped character (Output::advance, Output::pop)
+    and reads them in Output::end_loc with the same clamp of the column.
+    The text is kept REVERSED in the model (newest character first).  line is a u16 with
+    wrapping_add/wrapping_sub, col a usize, char_pos a u32 (plain +/-; modelled unbounded and
+    truncated when read).  Output::remove_spaces (spaces removed inside the last line) is not
+    modelled. *)
+Record output := mkOut { o_rev : list chr; o_line : N; o_col : N; o_chars : N }.
+Definition out0 : output := mkOut [] 0 0 0.
+Inductive oop := OPush (c : chr) | OPop.
+Definition ostep (o : output) (a : oop) : output :=
+  match a with
+  | OPush c => mkOut (c :: o_rev o) (if is_nl c then wrap16 (o_line o + 1) else o_line o)
+                     (if is_nl c then 0 else o_col o + 1) (o_chars o + 1)
+  | OPop => match o_rev o with
+            | [] => o
+            | c :: r => mkOut r (if is_nl c then wrap16 (o_line o + 65535) else o_line o)
+                              (if is_nl c then out_true_col (lrev r) else o_col o - 1) (o_chars o - 1)
+            end
+  end.
+Definition out_text (o : output) : list chr := lrev (o_rev o).
+Definition out_end_loc (o : output) : Loc :=
+  mkLoc (o_line o) (N.min (o_col o) U16MAX) (wrap32 (fold_right (fun c n => chr_len c + n) 0 (out_text o))) (wrap32 (o_chars o)).
+
+(** Formatter::push: start = end location of the output before the fragment, end = end location
+    of the output after it (read from the running location since 6889e96; it equals end_loc of
+    the text: Proofs/Lex.v running_end_loc).  On an exported final output text [out] and a glyph-map
     entry (s, e): both positions are the end_loc of the output prefix of their byte length. *)
 Fixpoint take_bytes (cs : list chr) (b : N) : option (list chr) :=
   if b =? 0 then Some [] else
